@@ -1,6 +1,6 @@
 #!/bin/bash
 # usage: seedone.sh <seed-id> [prop] : apply one seeded patch to its scratch worktree and run the quick check against it
-s=$1; p=${2:-${s%-*}}; wt=/tmp/seed/${s%-*}
+s=$1; p=${2:-${s%%-*}}; wt=/tmp/seed/${s%%-*}
 cd /verif
 git -C $wt checkout -q -- . ; git -C $wt apply /verif/seeded/$s/patch.diff || { echo "$s apply-failed"; exit; }
 res=$(FRGV_REPO=$wt timeout 3000 python3 vp.py check $p --tier quick 2>&1); rc=$?
